@@ -3,8 +3,9 @@ no orphan process.
 
 Correspondence (DESIGN section 4, C20): every case runs the REAL code twice in the harness process --
 once in-process (`<method>`) and once through the external plug-in (`external/<method>`), whose child
-process is started through the PATH wrapper `harness/c20_wrapper/ropt_plugin_optimizer` (kill switch,
-pid file, child-side wire log; ropt itself is untouched).  Recorded for both runs, with every float as
+process is started through the PATH wrapper `harness/c20_wrapper/ropt_plugin_optimizer` (death by a signal /
+exit / raise switches, pipe schedule, pid file, child-side wire log; ropt itself is untouched).  Each case runs in
+a forked process group of its own that is killed as a whole after HARD_TIMEOUT_S (reported as a hang).  Recorded for both runs, with every float as
 its IEEE-754 bit pattern: the sequence of optimizer callbacks (variables, flags -> functions, gradients
 | abort code | exception class), inside each callback the calls of the user's evaluator (variables,
 realizations, active flags, returned objectives/constraints) and the results delivered with
@@ -183,6 +184,8 @@ def build_config(case: dict, external: bool) -> dict:
             opt[name] = True
     if case.get("options") is not None:
         opt["options"] = dict(case["options"])
+    for key, value in _output_paths(case, external).items():
+        opt[key] = value
     if case.get("ncon"):
         cfg["nonlinear_constraints"] = {
             "lower_bounds": [(-np.inf if v is None else v) for v in case["con_lower"]],
@@ -196,6 +199,35 @@ def build_config(case: dict, external: bool) -> dict:
             "upper_bounds": [(np.inf if v is None else v) for v in lin["upper"]],
         }
     return cfg
+
+
+def _output_paths(case: dict, external: bool) -> dict:
+    """optimizer.output_dir / stdout / stderr of a case (pathlib.Path fields of the configuration; F20d).
+    case["paths"] = [use output_dir, stdout name or None, stderr name or None, absolute names]; every run gets its own
+    directory under the case's scratch directory."""
+    spec = case.get("paths")
+    if not spec:
+        return {}
+    root = Path(case.get("_scratch") or WORK) / ("out-ext" if external else "out-in")
+    root.mkdir(parents=True, exist_ok=True)
+    use_dir, out, err, absolute = spec
+    cfg = {}
+    if use_dir:
+        cfg["output_dir"] = str(root)
+    for key, name in (("stdout", out), ("stderr", err)):
+        if name:
+            cfg[key] = str(root / name) if (absolute or not use_dir) else name
+    return cfg
+
+
+def _files_ok(case: dict, external: bool) -> bool:
+    """The redirection files exist where the configuration says (they are created when the step is set up)."""
+    spec = case.get("paths")
+    if not spec:
+        return True
+    root = Path(case["_scratch"]) / ("out-ext" if external else "out-in")
+    use_dir, out, err, _ = spec
+    return all((root / name).is_file() for name in ((out, err) if out else ()) if name)
 
 
 class _Recorder:
@@ -284,20 +316,23 @@ class VerifInterrupt(BaseException):
 
 
 def _with_deadline(seconds: float, fn):
-    """Run fn() in the main thread; raise _Hang inside it when it takes longer than `seconds`."""
+    """Run fn() in the main thread; raise _Hang inside it when it takes longer than `seconds` -- and AGAIN every 1.5 s
+    until fn() is left: the code under test catches BaseException around its request handler (to send 'abort' first),
+    so a single _Hang raised there can be swallowed by a tree whose loop never gets to re-raise it."""
+    state = {"armed": True}
+
     def handler(signum, frame):
-        raise _Hang()
+        if state["armed"]:
+            raise _Hang()
     old_handler = signal.signal(signal.SIGALRM, handler)
-    remaining = signal.alarm(0)
-    t0 = time.time()
-    signal.setitimer(signal.ITIMER_REAL, seconds)
+    signal.alarm(0)
+    signal.setitimer(signal.ITIMER_REAL, seconds, 1.5)
     try:
         return fn()
     finally:
+        state["armed"] = False
         signal.setitimer(signal.ITIMER_REAL, 0)
         signal.signal(signal.SIGALRM, old_handler)
-        if remaining:
-            signal.alarm(max(1, int(remaining - (time.time() - t0))))
 
 
 def _run_once(case: dict, external: bool, deadline: float) -> dict:
@@ -373,7 +408,7 @@ def _run_once(case: dict, external: bool, deadline: float) -> dict:
     finally:
         om.EnsembleOptimizer._optimizer_callback = orig
     return {"trace": rec.trace, "stray": rec.stray, "out": out, "best": best, "hang": hang,
-            "wall_ms": int((time.time() - t0) * 1000)}
+            "wall_ms": int((time.time() - t0) * 1000), "files_ok": _files_ok(case, external) if case.get("_scratch") else True}
 
 
 def _pid_alive(pid: int) -> bool:
@@ -468,23 +503,115 @@ def _process_timeout() -> float:
     return float(ext._PROCESS_TIMEOUT)
 
 
+HARD_TIMEOUT_S = 330       # the whole case (in-process run + external run + bookkeeping) in its own process group
+
+
 def run_impl(case: dict) -> dict:
+    """Every case runs in a forked process of its own (own session / process group) that is killed as a whole when
+    it does not finish within HARD_TIMEOUT_S: whatever the tree under test does -- swallow the deadline exception, block
+    in a system call, leave optimizer processes behind -- the check itself cannot hang; such a case is reported as a
+    hang (`never-hangs(hard)`)."""
+    import select
+    import traceback
+
+    scratch = WORK / f"C20-run-{os.getpid()}-{time.time_ns()}"
+    scratch.mkdir(parents=True)
+    r, w = os.pipe()
+    sys.stdout.flush()
+    sys.stderr.flush()
+    pid = os.fork()
+    if pid == 0:
+        code = 0
+        try:
+            os.close(r)
+            os.setsid()
+            devnull = os.open(os.devnull, os.O_WRONLY)
+            os.dup2(devnull, 1)          # what the optimizers print (disp) is not part of the check's output
+            os.close(devnull)
+            signal.alarm(0)
+            signal.setitimer(signal.ITIMER_REAL, 0)
+            signal.signal(signal.SIGALRM, signal.SIG_DFL)
+            try:
+                obs = _run_impl_inner(case, scratch)
+            except BaseException as exc:  # noqa: BLE001 - reported to the runner as a harness error
+                obs = {"harness_error": type(exc).__name__, "message": str(exc)[:300],
+                       "trace": traceback.format_exc()[-1500:]}
+            data = json.dumps(obs).encode()
+            view = memoryview(data)
+            while view:
+                view = view[os.write(w, view[:65536]):]
+        except BaseException:  # noqa: BLE001
+            code = 3
+        finally:
+            os._exit(code)
+    os.close(w)
+    chunks, t0, timed_out = [], time.time(), False
+    try:
+        while True:
+            left = HARD_TIMEOUT_S - (time.time() - t0)
+            if left <= 0:
+                timed_out = True
+                break
+            ready, _, _ = select.select([r], [], [], min(left, 5.0))
+            if ready:
+                chunk = os.read(r, 1 << 20)
+                if not chunk:
+                    break
+                chunks.append(chunk)
+    finally:
+        os.close(r)
+        for sig in (signal.SIGKILL,):
+            try:
+                os.killpg(pid, sig)          # the case's whole process group: itself, optimizer children it left behind
+            except (ProcessLookupError, PermissionError):
+                pass
+        try:
+            os.waitpid(pid, 0)
+        except ChildProcessError:
+            pass
+        stage = ""
+        try:
+            stage = (scratch / "stage").read_text()
+        except OSError:
+            pass
+        shutil.rmtree(scratch, ignore_errors=True)
+    if timed_out:
+        return _hard_hang_obs(stage)
+    try:
+        return json.loads(b"".join(chunks).decode())
+    except ValueError:
+        return {"harness_error": "CaseProcessDied", "message": f"no observation from the case process (stage {stage!r})"}
+
+
+def _hard_hang_obs(stage: str) -> dict:
+    """Observation of a case whose process had to be killed from outside."""
+    run = {"trace": [], "stray": [], "out": ["hang"], "best": [], "hang": True, "wall_ms": HARD_TIMEOUT_S * 1000}
+    ext = {**run, "child_started": True, "child_alive": True, "fifo_left": [], "pwire": [], "cwire": [], "fault_fired": False,
+           "survived": False, "wire_broken": False, "limit_ms": 0, "after_ms": 0, "files_ok": True}
+    inproc = {**run, "files_ok": True} if stage != "external" else {**run, "out": ["exit", 0], "hang": False, "files_ok": True}
+    return {"cfg_roundtrip": True, "cfg_digest": "cfg:unknown", "inproc": inproc, "ext": ext, "process_timeout_ms": 0,
+            "hard_hang": stage or "start"}
+
+
+def _run_impl_inner(case: dict, scratch: Path) -> dict:
     import tempfile
 
     import ropt.plugins.optimizer.external as ext
     from ropt.config.enopt import EnOptConfig
 
+    case = {**case, "_scratch": str(scratch)}
+    (scratch / "stage").write_text("inproc")
     # -- config round trip through JSON (the lossless-channel assumption for the config message)
     cfg = EnOptConfig.model_validate(build_config(case, external=True))
     dump1 = cfg.model_dump(round_trip=True)
-    wire = json.loads(json.dumps(dump1, cls=_np_encoder()))
+    wire = json.loads(json.dumps(dump1, cls=_np_encoder()))     # (paths as text: what F20d's repair sends)
     dump2 = EnOptConfig.model_validate(wire).model_dump(round_trip=True)
     cfg_digest = "cfg:" + _digest(bitify(wire))
     cfg_roundtrip = _same_config(wire, json.loads(json.dumps(dump2, cls=_np_encoder())))
 
     inproc = _run_once(case, external=False, deadline=INPROC_DEADLINE_S)
+    (scratch / "stage").write_text("external")
 
-    scratch = WORK / f"C20-run-{os.getpid()}-{time.time_ns()}"
     fifo_root = scratch / "tmp"
     fifo_root.mkdir(parents=True)
     pidfile, clog, plog = scratch / "child.pid", scratch / "child.log", scratch / "parent.log"
@@ -565,9 +692,11 @@ def run_impl(case: dict) -> dict:
             "child_started": started, "child_alive": bool(alive), "fifo_left": leftovers,
             "pwire": _fold_config(_read_wire(plog), "r", "w"),
             "cwire": _fold_config([m for m in cw_all if m[0] in ("r", "w")], "w", "r"),
-            "fault_fired": any(m[0] == "fault" for m in cw_all) or wfault["fired"],
-            "wkill_dead": wfault["dead"],
-            "wire_broken": any(m[0] not in ("r", "w", "fault") for m in cw_all),
+            # a signal the child survived (ignored / handled without exiting) is not a death: no fault happened
+            "survived": any(m[0] == "survived" for m in cw_all) or (wfault["fired"] and not wfault["dead"]),
+            "fault_fired": (any(m[0] == "fault" for m in cw_all) and not any(m[0] == "survived" for m in cw_all))
+                           or (wfault["fired"] and wfault["dead"]),
+            "wire_broken": any(m[0] not in ("r", "w", "fault", "survived") for m in cw_all),
             "limit_ms": int(limit * 1000),
             "after_ms": int((time.time() - t_end) * 1000),
         })
@@ -581,7 +710,6 @@ def run_impl(case: dict) -> dict:
             else:
                 os.environ[k] = v
         _kill_stray(pid, pidfile)
-        shutil.rmtree(scratch, ignore_errors=True)
     return {"cfg_roundtrip": bool(cfg_roundtrip), "cfg_digest": cfg_digest, "inproc": inproc, "ext": external,
             "process_timeout_ms": int(_process_timeout() * 1000)}
 
@@ -612,6 +740,8 @@ def _np_encoder():
         def default(self, obj):
             if isinstance(obj, np.ndarray):
                 return obj.tolist()
+            if isinstance(obj, Path):
+                return str(obj)
             return super().default(obj)
     return Enc
 
@@ -719,8 +849,10 @@ def raise_message(f: list) -> str:
     return RAISE_MESSAGES[f[2] if len(f) > 2 else "msg"]
 
 
-def _fault_terms(case: dict) -> tuple[str, str]:
+def _fault_terms(case: dict, survived: bool = False) -> tuple[str, str]:
     f = case.get("fault") or ["none"]
+    if survived:
+        return "NoFault", "None"
     if f[0] == "kill":
         return f"(DieAfter {cq.nat(f[1])} {_sig(f)})", "None"
     if f[0] == "rkill":
@@ -740,7 +872,7 @@ def coq_case(case: dict, obs: dict) -> str:
     i, e = obs["inproc"], obs["ext"]
     end = _end_of(i)
     end_t = "Stop" if end[0] == "stop" else f"(Fail {cq.s(_clean(end[1]))})"
-    flt, raise_at = _fault_terms(case)
+    flt, raise_at = _fault_terms(case, bool(e.get("survived")))
     fields = [
         f"(JStr {cq.s(obs['cfg_digest'])})",
         cq.b(obs["cfg_roundtrip"]),
@@ -761,6 +893,7 @@ def coq_case(case: dict, obs: dict) -> str:
         cq.b(e["child_alive"]),
         cq.nat(min(len(e["fifo_left"]), 1000)),
         cq.nat(min(len(i["stray"]) + len(e["stray"]) + (1 if e["wire_broken"] else 0), 1000)),
+        cq.b(i.get("files_ok", True) and e.get("files_ok", True)),
         f"({int(e['wall_ms'])})%Z",
     ]
     return "(Build_case\n " + "\n ".join(fields) + ")"
@@ -787,6 +920,9 @@ def _faulted(case: dict) -> bool:
 def oracle(case: dict, obs: dict):
     i, e = obs["inproc"], obs["ext"]
     fin = _finished_code()
+    if obs.get("hard_hang"):
+        return {"clause": "never-hangs(hard)", "detail": {"fault": case.get("fault"), "stage": obs["hard_hang"],
+                "note": f"the case's process group had to be killed after {HARD_TIMEOUT_S} s"}}
     if i["hang"]:
         return {"clause": "in-process-run-hangs", "detail": i["out"]}
     if e["hang"] or e["out"][0] == "hang":
@@ -806,6 +942,9 @@ def oracle(case: dict, obs: dict):
                            "error_reported": error_reported, "out": e["out"]}}
     if not obs["cfg_roundtrip"]:
         return {"clause": "config-roundtrip", "detail": "dump -> JSON -> validate -> dump differs"}
+    if not (i.get("files_ok", True) and e.get("files_ok", True)):
+        return {"clause": "output-files", "detail": {"paths": case.get("paths"), "inproc": i.get("files_ok"),
+                                                     "external": e.get("files_ok")}}
     # both ends of the pipe saw the same messages
     c_w = [m for k, m in e["cwire"] if k == "w"]
     c_r = [m for k, m in e["cwire"] if k == "r"]
@@ -816,7 +955,7 @@ def oracle(case: dict, obs: dict):
                                                          "parent_wrote": len(p_w), "child_read": len(c_r)}}
     if i["stray"] or e["stray"]:
         return {"clause": "evaluation-outside-callback", "detail": len(i["stray"]) + len(e["stray"])}
-    if not _faulted(case):
+    if not _faulted(case) or e.get("survived"):
         if e["trace"] != i["trace"]:
             k = next((n for n, (a, b) in enumerate(zip(e["trace"], i["trace"])) if a != b),
                      min(len(e["trace"]), len(i["trace"])))
@@ -858,6 +997,7 @@ def features(case: dict, obs: dict) -> dict:
         "eval_raise_at": case.get("eval_raise_at") is not None,
         "eval_raise_kind": case.get("eval_raise_kind", "exception") if case.get("eval_raise_at") is not None else "-",
         "qualified_name": bool(case.get("qualified")),
+        "output_paths": "-" if not case.get("paths") else "".join("1" if v else "0" for v in case["paths"]),
         "pipe_schedule": "-" if not case.get("sched") else "".join(str(min(int(v), 9)) for v in case["sched"]),
         "one_sided_bounds": any(v is None for key in ("lower", "upper") for v in (case.get(key) or [])),
         "parallel": bool(case.get("parallel")),
@@ -906,6 +1046,11 @@ def rand_base(rng, method: str | None = None, flavour: str | None = None) -> dic
             case[side] = [None if rng.random() < 0.6 else v for v in case[side]]
     if rng.random() < 0.25:
         case["qualified"] = True          # external/scipy/<method> against scipy/<method>
+    if rng.random() < 0.2:
+        # optimizer.output_dir / stdout / stderr (paths inside the configuration message; F20d)
+        case["paths"] = rng.choice([[True, "opt.out", None, False], [True, "opt.out", "opt.err", False],
+                                    [False, "opt.out", "opt.err", True], [True, None, None, False],
+                                    [True, "o.txt", "e.txt", True]])
     if method in ("slsqp", "l-bfgs-b") and nvar == 3 and rng.random() < 0.5:
         mask = [True, True, True]
         mask[rng.randrange(3)] = False
@@ -964,7 +1109,7 @@ def rand_base(rng, method: str | None = None, flavour: str | None = None) -> dic
 def _probe_callbacks(case: dict) -> int:
     """Number of optimizer callbacks of the in-process run (to place crash points); bound on failure."""
     try:
-        r = _run_once({**case, "fault": ["none"]}, external=False, deadline=20)
+        r = _run_once({**case, "fault": ["none"], "paths": None}, external=False, deadline=20)
         n = len(r["trace"])
         if r["out"][0] == "raise" and (not r["trace"] or r["trace"][-1]["res"][0] == "ok"):
             n += 1                     # the error report is a message too
@@ -1122,52 +1267,72 @@ def search(rng, case):
 
 
 RULE = ("every case = one in-process run and one run through external/<method> (real child process started through the "
-        "PATH wrapper) of the same seeded configuration: methods slsqp / l-bfgs-b / nelder-mead / differential_evolution(seed, "
-        "also parallel) with 1-2 objectives, 1-3 realizations, nonlinear and linear constraints, bounds, variable masks, "
-        "speculative / split evaluations, max_functions / maxiter, NaN failures (tolerated, too-few, allowed for DE), user abort "
-        "at evaluation j, the user's evaluator raising at call j, an optimizer option that makes the optimizer itself fail; "
-        "faults: child SIGKILLed after k = 0..n+2 exchanged messages, child exiting with code 1/2/3/9/120/255 after k messages, "
-        "the optimizer's j-th callback raising inside the child.  quick: 12 equality pairs + 3 base runs x (up to 7 kill points, "
-        "2 exit points, 2 raising callbacks); thorough: 84 equality pairs, 10 base runs x all crash points, and for three "
-        "~12-callback runs every kill point, every exit point, every raising callback, every raising evaluation and every abort "
-        "point, plus 80 random faulted runs.  Non-trivial = the child process was started and the run has at least one "
-        "callback or a fault; distinct = distinct (configuration, fault).")
+        "PATH wrapper) of the same seeded configuration, in a forked process group of its own (hard kill after 330 s = hang): "
+        "methods slsqp / l-bfgs-b / nelder-mead / differential_evolution(seed, also parallel), named <m> or scipy/<m>, with "
+        "1-2 objectives, 1-3 realizations, nonlinear and linear constraints, two- and one-sided bounds, variable masks, explicit "
+        "start vectors, speculative / split evaluations, max_functions / maxiter, optimizer.output_dir / stdout / stderr paths, "
+        "NaN failures (tolerated, too-few, allowed for DE), user abort before or after evaluation j with exit code 4/0/1/3, the "
+        "user's evaluator raising an Exception or a BaseException at call j, an optimizer option that makes the optimizer itself "
+        "fail; pipe schedules (requests not readable / answers not writable when first tried, parent and child side); faults: "
+        "child dying by SIGTERM / SIGKILL / SIGINT / SIGHUP / os.abort() / SIGSEGV (i) when about to write message k = 0..n+2, "
+        "(ii) right after the answer to message k, also the last one, (iii) while blocked waiting for the answer to message k "
+        "(killed from outside once the parent has read it); child exiting with code 1/2/3/9/120/255 after k messages; the "
+        "optimizer's j-th callback raising inside the child with a message, with an EMPTY message (bare raise / assert), with "
+        "'0', with a message containing quotes, newline and the pipe delimiter.  quick: 12 equality pairs + 3 schedule runs + 3 "
+        "base runs x (<= 7 kill points, 2 after-answer, 2 waiting, 2 exit points, 2 raising callbacks) + 24 corpus inputs; "
+        "thorough: 84 equality pairs, 24 schedule runs, 10 base runs x all crash points of all three kinds, and for three "
+        "~12-callback runs every crash point of every kind with SIGTERM and one more signal, every exit point, every raising "
+        "callback, every raising evaluation and every abort point, plus 80 random faulted runs.  Non-trivial = the child "
+        "process was started and the run has at least one callback or a fault; distinct = distinct (configuration, fault).")
 ASSUMPTIONS = [
     "the optimizer algorithm is a deterministic function of the configuration, the initial values and the answers it received "
     "(SciPy methods with a fixed seed); it is replayed in the model as the script observed in the in-process run",
     "the user's evaluator is deterministic in (call index, request); its observed behaviour in the in-process run is the model's evaluator",
     "JSON text round trip of finite floats, NaN and infinities is exact up to NaN payload (repr floats; checked on every message by comparing "
     "both ends of the pipe bit by bit) and the validated config survives dump -> JSON -> validate -> dump (checked on every case)",
-    "'the evaluator raises' is read as: raises an Exception (BaseException such as KeyboardInterrupt is outside the reading)",
+    "every message is smaller than the pipe capacity (64 KiB), so that a FIFO delivers it whole: the generated configurations have 2-3 "
+    "variables.  This assumption is FALSE for large problems on the current tree (finding F20b reported to the lead: a config message "
+    "of ~3000 variables is written only partly and the external run hangs); the stream that shows it (BIG_MESSAGES) is disabled",
+    "a signal the child survives (ignored or handled without exiting) is not a death: such a case is judged as a run without fault; "
+    "a handler that makes the child exit -- with whatever status -- is a death",
+    "'the evaluator raises' covers Exception and BaseException subclasses raised by the evaluator function (KeyboardInterrupt delivered "
+    "asynchronously to the parent at an arbitrary point is outside the reading)",
 ]
 TRUSTED = [
     "OS behaviour is NOT modelled (partial): signal delivery, FIFO buffering, process scheduling and real time-outs are exercised only by the "
-    "real-process correspondence (wall time below _PROCESS_TIMEOUT + 20 s, child pid not alive, FIFO directory empty)",
-    "harness/c20_wrapper/ropt_plugin_optimizer (PATH wrapper: imports ropt from the tree under test, pid file, child-side wire log, kill/exit/raise "
-    "fault, then ropt's own entry point) and the recording monkey-patches of the harness process "
-    "(EnsembleOptimizer._optimizer_callback, _JSONPipeCommunicator.read/write)",
+    "real-process correspondence (wall time below _PROCESS_TIMEOUT + 90 s, child pid not alive, FIFO directory empty); the model places the "
+    "death of a child that is killed while it waits for an answer at the parent's write of that answer (where it becomes observable) and "
+    "assumes that writing into a FIFO without reader fails at once",
+    "harness/c20_wrapper/ropt_plugin_optimizer (PATH wrapper: imports ropt from the tree under test, pid file, child-side wire log, stderr file, "
+    "kill / rkill / exit / raise faults, pipe schedule, then ropt's own entry point) and the recording monkey-patches of the harness process "
+    "(EnsembleOptimizer._optimizer_callback, _JSONPipeCommunicator.read/write incl. the injected 'not ready' results and the outside kill)",
     "SciPy optimizers and the EnsembleEvaluator are black boxes here: only their observable request/answer sequence is used",
 ]
 
 MANIFEST = {
     "level_text": ("Machine-checked Coq proof about an executable message-level model of ropt/plugins/optimizer/external.py (child program, "
                    "parent request loop with its answer/exception variables and write retry, JSON encode/decode of the four request and four "
-                   "answer kinds, kill/exit faults): for every optimizer strategy, evaluator and pipe schedule the external run makes exactly "
-                   "the in-process callbacks and ends the same way (C20_lossless_*, C20_trace_equal); for every crash point k the run ends with "
-                   "the abnormal-termination error after a prefix of the evaluations, a non-zero return code or a read error report never "
-                   "yields a normal return, and a normal return implies the complete run (C20_fault_outcome, C20_death_never_success, "
-                   "C20_success_is_complete, C20_raise_not_finished); the loop is left in the pass after the child is gone and every finite "
-                   "script terminates within |script|+3 ready passes (C20_poll_exit, C20_terminates); in every final state the child is not "
-                   "running (C20_no_orphan); results do not depend on the pipe schedule (C20_schedule_independent).  The model is tied to the "
-                   "code on every run by an in-Coq correspondence over REAL process pairs: byte-identical callback / evaluator / result traces, "
-                   "exit code and optimum of external vs in-process runs, both ends of the pipe, and the model's predicted outcome, trace, wire "
-                   "messages and child liveness under kill / exit / raise faults at every crash point."),
+                   "answer kinds, faults: death by any signal when about to write message k / right after the answer to message k / while "
+                   "waiting for that answer, exit with a code): for every optimizer strategy, evaluator and pipe schedule the external run "
+                   "makes exactly the in-process callbacks and ends the same way (C20_lossless_*, C20_trace_equal); for every crash point k "
+                   "of every kind and every signal the run ends with the abnormal-termination error or the broken-pipe error after a prefix "
+                   "of the evaluations, a non-zero return code or a read error report (with any message, also the empty one) never yields a "
+                   "normal return, and a normal return implies the complete run (C20_fault_outcome, C20_death_never_success, "
+                   "C20_success_is_complete, C20_raise_not_finished); which signal it was changes nothing but the return code "
+                   "(C20_signal_irrelevant); the loop is left in the pass after the child is gone and every finite script terminates within "
+                   "|script|+3 ready passes (C20_poll_exit, C20_terminates); in every final state the child is not running (C20_no_orphan); "
+                   "results do not depend on the pipe schedule (C20_schedule_independent).  The model is tied to the code on every run by an "
+                   "in-Coq correspondence over REAL process pairs: byte-identical callback / evaluator / result traces, exit code and optimum "
+                   "of external vs in-process runs (also under injected pipe schedules), both ends of the pipe, and the model's predicted "
+                   "outcome, trace, wire messages and child liveness under signal / exit / raise faults at every crash point of every kind."),
     "level_note": ("PARTIAL with respect to OS behaviour: signal delivery, FIFO buffering, scheduling and real time-outs cannot be exhibited by the "
                    "Gallina model (`terminate` assumes SIGTERM + wait ends a running child, `poll` reports a dead child, FIFOs deliver what was "
-                   "written); these are exercised only by the real-process correspondence (wall time < _PROCESS_TIMEOUT + 20 s, child pid dead, "
-                   "FIFO directory empty).  Trusted: Coq kernel + VM; the PATH wrapper and the recording monkey-patches; SciPy and the evaluator "
-                   "as black boxes replayed from the in-process run; the translator copying _PROCESS_TIMEOUT and OptimizerExitCode.  'Evaluator "
-                   "raises' is read as Exception (not BaseException).  All theorems print 'Closed under the global context'."),
-    "technique": "Coq proof (induction over fuel/schedules on an executable protocol state machine) + in-Coq differential correspondence with real parent/child process pairs under injected faults",
+                   "written -- whole messages, i.e. messages below the 64 KiB pipe capacity; a write into a FIFO without reader fails at once); "
+                   "these are exercised only by the real-process correspondence (wall time < _PROCESS_TIMEOUT + 90 s, child pid dead, FIFO "
+                   "directory empty).  Open finding F20b (reported, stream disabled): messages above the pipe capacity hang the external run.  "
+                   "Trusted: Coq kernel + VM; the PATH wrapper and the recording monkey-patches; SciPy and the evaluator as black boxes "
+                   "replayed from the in-process run; the translator copying _PROCESS_TIMEOUT and OptimizerExitCode.  All theorems print "
+                   "'Closed under the global context'."),
+    "technique": "Coq proof (induction over fuel/schedules, a signal-insensitive bisimulation, on an executable protocol state machine) + in-Coq differential correspondence with real parent/child process pairs under injected faults and pipe schedules",
     "design_ref": "DESIGN.md section 4, C20",
 }
